@@ -6,9 +6,19 @@ def _tag(line, out):
     if len(w) < 3:
         return None
     if w[2] == "append":
-        n = len(w) - 4
-        alias = "alias" if len(set(w[3:])) < len(w[3:]) else "distinct"
-        return "append:%s:%s" % ("0" if n <= 0 else "1" if n == 1 else "2-3" if n <= 3 else "4+", alias)
+        args = w[3:]
+        n = len(args) - 1
+        alias = "alias" if len(set(args)) < len(args) else "distinct"
+        tag = "append:%s:%s" % ("0" if n <= 0 else "1" if n == 1 else "2-3" if n <= 3 else "4+", alias)
+        # Appendix B observation: with a nil err the first non-nil *Error argument is adopted (the result IS that
+        # argument, which is therefore mutated) — visible as the result sharing the identity of a later argument
+        for tok in out.split(" "):
+            if tok.startswith(w[0] + ":e#"):
+                j = tok[len(w[0]) + 3:].split("[", 1)[0]
+                if "v" + j != w[0] and "v" + j != args[0] and "v" + j in args[1:]:
+                    tag += ":adopts-argument"
+                break
+        return tag
     return w[2]
 
 
@@ -20,13 +30,22 @@ def run(ctx):
     ]
     ctx.assumptions += [
         "the Append theorems assume a well-formed heap (WF: links point forward, stay inside the heap, never reach an "
-        "empty node; preserved by New/NewWithCause/&Error{}/Wrap/WrapTyped/Append — constructors_wf, append_wf) and "
-        "NoAlias: no appended argument's chain ends in the accumulator's last cell; aliased calls (Append(a, b, a) "
-        "contains a, b, a, b) and heaps built with CloneWithPrefixMessage (shared tails) are covered by the "
-        "correspondence run only (append_alias_Statement, append_wf_any_Statement are stated, not proved)",
+        "empty node; proved for every heap New/NewWithCause/&Error{}/Wrap/WrapTyped/Append can build, with any "
+        "aliasing — reachable_wf, append_wf_any) and, for the content/frame theorems, NoAlias: no appended argument's "
+        "chain ends in the accumulator's last cell; the content of aliased calls (Append(a, b, a) contains a, b, a, b) "
+        "is proved separately (append_items_alias); heaps built with CloneWithPrefixMessage (shared tails, links not "
+        "forward) are covered by the correspondence run only",
         "the model driver evaluates the Boolean form of WF on every heap of every history without clone and prints an "
         "alarm (a mismatch) if it fails",
         "Appendix B: when err is nil the first non-nil *Error argument is adopted as the accumulator (and mutated)",
+    ]
+    ctx.extra["observations"] = [
+        "Appendix B: Append(nil, a, b) returns a itself (a is mutated; Count 2) — tag `adopts-argument` in tag_histogram "
+        "counts the generated calls where this happened; not alarmed on",
+        "aliased call: Append(a, b, a) contains a, b, a, b (Count 4): the second a is read after a has grown; model and "
+        "implementation agree; outside append_items (hypothesis NoAlias); proved as append_items_alias",
+        "NewWithCause(msg, (*Error)(nil)): StackTrace/Detail/Error() dereference the typed-nil cause and panic; the "
+        "harness avoids rendering such errors (causeSafe) — reported to the coordinator",
     ]
     ctx.lean(props=["Props.C11"], drivers=["drv_c11"])
     ctx.harness("./cmd/c11")
